@@ -28,9 +28,36 @@ partial def parseTree (j : Json) : R DTree := do
 def optTree (j : Json) : R (Option DTree) := if j.isNull then pure none else some <$> parseTree j
 def optS (j : Json) : R (Option String) := if j.isNull then pure none else some <$> j.getStr?
 
+def parseCodes (j : Json) : R (List (String × Int)) := do
+  (← arr j).mapM (fun kv => do
+    match ← arr kv with
+    | [a, b] => return (← a.getStr?, ← b.getInt?)
+    | _ => throw "bad code")
+
+/-- the datatype of a parameter declaration: a tree read off the declared object - with the datatype properties given as
+keywords next to it applied (`Parameter.__init__`: `self.init(kwds)` → `datatype.setProperty`) -, or a status datatype
+still to be worked out from the class it extends -/
+def parseDeclTree (j : Json) : R (Option DTree) := do
+  match j.getObjVal? "status" with
+  | .ok sj =>
+    let parent ← optS (← fld sj "parent")
+    return some (pendingStatus parent (stdCodes Generated.C09.statusCodes (← fldStrs sj "std") ++ (← parseCodes (← fld sj "custom"))))
+  | .error _ =>
+    let kw ← match j.getObjVal? "dtkw" with
+      | .ok kj => parseProps kj
+      | .error _ => pure []
+    return (← optTree (← fld j "dt")).map (fun t => applyDtProps tables t kw)
+
+def parseStruct (j : Json) : R StructDecl := do
+  let members ← (← fldArr j "members").mapM (fun m => do
+    match ← arr m with
+    | [n, d, t] => return (← n.getStr?, ← d.getStr?, ← parseTree t)
+    | _ => throw "bad struct member")
+  return ⟨← optS (← fld j "desc"), ← fldStr j "prefix", ← fldStr j "readonly", ← parseTree (← fld j "dt"), members⟩
+
 def parseDecl (j : Json) : R Decl := do
   match ← fldStr j "k" with
-  | "param" => return .param (← optS (← fld j "desc")) (← optTree (← fld j "dt")) (← parseProps (← fld j "props")) (← fldBool j "inherit")
+  | "param" => return .param (← optS (← fld j "desc")) (← parseDeclTree j) (← parseProps (← fld j "props")) (← fldBool j "inherit")
   | "cmd" => return .cmd (← optS (← fld j "desc")) (← optTree (← fld j "arg")) (← parseProps (← fld j "props"))
   | "value" => return .value (← fldStr j "v") false none
   | "method" => return .value "null" true (← optS (← fld j "optional"))
@@ -63,9 +90,11 @@ def parseOp (j : Json) : R (List (Bool × SOp)) := do
   | "class" =>
     let decls ← (← fldArr j "decls").mapM (fun nd => do
       match ← arr nd with
-      | [n, d] => return (← n.getStr?, ← parseDecl d)
+      | [n, d] =>
+        if (← fldStr d "k") == "struct" then return (← n.getStr?, Sum.inr (← parseStruct d))
+        else return (← n.getStr?, Sum.inl (← parseDecl d))
       | _ => throw "bad decl pair")
-    return [(ok, .define ⟨← fldStr j "name", ← fldStrs j "mro", ← fldBool j "module", decls⟩ (← fldStrs j "bases"))]
+    return [(ok, .define ⟨← fldStr j "name", ← fldStrs j "mro", ← fldBool j "module", expandStructs decls⟩ (← fldStrs j "bases"))]
   | "load" => return [(ok, .load (← fldStr j "name") (← parseEntries (← fld j "entries")) (← parseGroups (← fld j "groups")))]
   | "inst" =>
     let sec ← fldStr j "section"
@@ -194,6 +223,11 @@ def parseDumps (j : Json) : R (List (String × String)) := do
   let o ← j.getObj?
   o.toList.mapM (fun kv => do return (kv.1, ← kv.2.getStr?))
 
+/-- a class is defined with its status datatype worked out in the world as it is then -/
+def elabOp (s : Session) : SOp → SOp
+  | .define d bases => .define (elabClass s.world d) bases
+  | op => op
+
 def handle (j : Json) : R Json := do
   let k ← fldStr j "k"
   match k with
@@ -201,9 +235,9 @@ def handle (j : Json) : R Json := do
     let T : STables := ⟨tables, ← fldStrs j "secop_base"⟩
     let pre ← (← fldArr j "prelude").mapM parseOp
     let ops ← (← fldArr j "ops").mapM parseOp
-    let s0 := srun T {} ((pre.flatten).map (·.2))
+    let s0 := (pre.flatten).foldl (fun s o => sstep T s (elabOp s o.2)) {}
     let (_, outs) := ops.foldl (fun (st : Session × List Json) op =>
-      let s' := op.foldl (fun s o => if o.1 then sstep T s o.2 else s) st.1
+      let s' := op.foldl (fun s o => if o.1 then sstep T s (elabOp s o.2) else s) st.1
       (s', st.2 ++ [snapshot s'])) (s0, [])
     return Json.mkObj [("init", snapshot s0), ("steps", jarr outs)]
   | "judge_run" =>
@@ -223,6 +257,29 @@ def handle (j : Json) : R Json := do
       | [a, b] => return (← a.getStr?, ← b.getStr?)
       | _ => throw "bad pair")
     return Json.mkObj [("ok", Json.bool (writesOwnB pairs))]
+  | "ctx_model" =>
+    -- what module `y` shows (members, struct) after `y.<m> = v`, on its own or inside a struct access of module `x`
+    let shown ← (← fldArr j "probes").mapM (fun pj => do
+      let y ← fldStr pj "y"
+      let x ← optS (← fld pj "x")
+      let w : StructRW.Mods String := [(y, ⟨0, ← parseProps (← fld pj "struct"), ← parseProps (← fld pj "members")⟩)] ++
+        (match x with | some xn => [(xn, ⟨0, [], []⟩)] | none => [])
+      let m ← fldStr pj "m"
+      let v ← fldStr pj "v"
+      let w' := match x with
+        | some xn => StructRW.leave (StructRW.memberUpdate (StructRW.enter w xn) y m v) xn
+        | none => StructRW.memberUpdate w y m v
+      let pairs := fun (l : List (String × String)) => jarr (l.map (fun kv => jarr [Json.str kv.1, Json.str kv.2]))
+      match aget? w' y with
+      | some sp => return jarr [pairs sp.members, pairs sp.struct]
+      | none => throw "ctx_model: module lost")
+    return Json.mkObj [("shown", jarr shown)]
+  | "judge_ctx" =>
+    let pairs ← (← fldArr j "pairs").mapM (fun p => do
+      match ← arr p with
+      | [a, b] => return (← a.getStr?, ← b.getStr?)
+      | _ => throw "bad pair")
+    return Json.mkObj [("bad", jstrs (contextOffenders pairs))]
   | "judge_val" =>
     let pairs ← (← fldArr j "pairs").mapM (fun p => do
       match ← arr p with
